@@ -45,6 +45,10 @@ def gen_case(rng, i, tier):
         # invisible characters at the very start of the text (a byte order mark, a zero-width space) are template text like any
         # other: every route – string, precompiled, file – compiles the same characters
         main = rng.pick(["\ufeff", "\ufeff{{!c}}\n", "\u200b{{!c}}\n", "\ufeff  {{> p0}}\n", "\ufeff{{#if a}}\nx\n{{/if}}\n", "\ufeff\ufeff", "\u2060"]) + main
+    if rng.chance(0.3):
+        # the text ENDS in a tag alone on its indented line, with no line break behind it: the end of the input counts as the end
+        # of the line – for every way the text gets into the registry
+        main += rng.pick(["\n  {{! c }}", "\n\t{{#if a}}\n  yes\n  {{/if}}", "\n  {{> p0}}", "\nx\n  {{!-- c --}}  ", "\n {{#each l}}\n e\n {{/each}}\t"])
     pbfail = rng.chance(0.3)
     if pbfail:
         # a failing tag written in main but rendered from inside another partial (a partial-block body, an inline partial):
@@ -84,6 +88,9 @@ def gen_case(rng, i, tier):
         # the same text registered from a FILE (outside dev mode: read once, at registration)
         ops = ops + [{"op": "write_file", "file": "f9", "content": main}, {"op": "reg_file", "reg": 0, "name": "mainf", "file": "f9"}]
         calls.append({"op": "render", "reg": 0, "api": rng.pick(NAMED), "name": "mainf", "data": d})
+        # … and through register_partial ("a registered partial is just identical to a template")
+        ops = ops + [{"op": "reg_partial", "reg": 0, "name": "mainp", "src": main}]
+        calls.append({"op": "render", "reg": 0, "api": rng.pick(NAMED), "name": "mainp", "data": d})
     for api in UNNAMED:
         calls.append({"op": "render", "reg": 0, "api": api, "src": main, "data": d})
     if not cfg["prevent_indent"] and not devfile:
